@@ -19,4 +19,14 @@ META = {
   'text': 'Part (a): theorems that CalcTimeout (as modelled) equals min(base*2^v, MaxInt64) for all v and 0 < base <= MaxInt64, is positive, monotone in v, saturating; tied to Go CalcTimeout on views 0..200 dense + boundary classes x bases 1ns..1h. Part (b) (trigger discipline) is proved on the Timer state-machine model; wall-clock facts (not before the timeout, eventually fires) rest on time.AfterFunc and are assumptions.',
   'note': 'Trusted: Coq kernel, Timeout.v/Timer.v models, harness. Assumes Go runtime timer semantics.',
  },
+ 'C17': {
+  'technique': 'Coq proof (invariant over op sequences incl. re-entrant drain) + vm_compute correspondence',
+  'text': 'Theorems for every sequence of receive/advance operations, including a handler that commits and starts the next height from inside a delivery: each delivery goes to the term of the message height, our instance, not our own sender; no message is delivered twice; only received messages are delivered; starting height h delivers exactly the messages cached for h in arrival order up to the first one that commits the term; accepted future messages are appended in arrival order, a higher height evicts, rejected messages have no effect. Tied to the real RawMessageFilter+State by exhaustive short sequences and random long ones with re-entrant handlers.',
+  'note': 'Trusted: Coq kernel, Filter.v model, harness recording handler. The clause "delivered exactly once" is proved in the form: delivered at the start of H unless an earlier cached message of H already made the node commit and leave H (then it is a past-height message and is dropped) — the repaired behaviour (finding F12).',
+ },
+ 'C15': {
+  'technique': 'Coq proof (registry invariant over all op orders) + exhaustive/random correspondence',
+  'text': 'Part (a), registry laws, proved for every order of For/CancelOlderThan/Shutdown: For fails iff shut down or key older than an earlier CancelOlderThan argument; a context is done iff Shutdown happened or a later CancelOlderThan had a newer argument; CancelOlderThan cancels exactly the older live contexts and nothing at or above its argument; watermark = max argument; one context per key. Tied to the real ViewContexts exhaustively for all sequences of 4 (quick) / 5 (thorough) ops over a 2x2 key range plus random long sequences. Part (b), the loop discipline (cancel before forward, no broadcast after cancellation), is checked on the worker model/engine.',
+  'note': 'Trusted: Coq kernel, Contexts.v model, Go context package semantics. Promptness of SPI reaction to cancellation is runtime behaviour and is not modelled.',
+ },
 }
